@@ -2,6 +2,7 @@ package sym
 
 import (
 	"fmt"
+	"os"
 	"regexp"
 	"sort"
 	"strings"
@@ -101,6 +102,7 @@ func RunAll(l *Loaded, fns []*ssa.Function, workers int, solver string, timeoutM
 					return
 				}
 				ex.Hooks = hooks
+				ex.UseModels = os.Getenv("SYMGO_NOMODELS") == ""
 				res := ex.RunHarness(fns[i])
 				ex.Close()
 				results[i] = res
